@@ -184,3 +184,21 @@ class RmKey(FnCheck, IndexPre):
         ex.oblige(st, 'other_entries_unchanged', z3.ForAll([kq], z3.Implies(kq != key, z3.And(
             self.has(st, self.slf, kq) == self.has(st0, self.slf, kq),
             self.view(st, self.slf, kq) == self.view(st0, self.slf, kq)))))
+
+
+# re-index discipline at the in-place update sites (an object changed in place must be re-indexed AFTER the change):
+# provider commit of a descriptor update and the consumer's description-modification handler
+from contracts import C02 as _c02   # noqa: E402
+from contracts import C01 as _c01   # noqa: E402
+
+
+@register
+class ProviderReindexAfterUpdate(_c02.DescriptorProcessTransaction):
+    id = 'C11.provider_descriptor_commit_reindexes_after_update'
+    prop = 'C11'
+
+
+@register
+class ConsumerReindexAfterUpdate(_c01.DescriptionModifications):
+    id = 'C11.consumer_description_update_reindexes_after_update'
+    prop = 'C11'
